@@ -132,6 +132,7 @@ VC_SELF = [H("vc_map_laws", "vcoll", mem=4), H("vc_btree_order", "vcoll", mem=4)
 PC_REGISTER = [PC("pc_register_two_locals_lagging_first", unwindset={"drop_glue": 2, "verif_q": 9}),
                PC("pc_register_two_locals_lagging_second", unwindset={"drop_glue": 2, "verif_q": 9})]
 PC_INPUT = [PC("pc_input_event")]
+PC_CONF = [PC(n) for n in ["pc_confirmed_frame_min_n2", "pc_confirmed_frame_min_n3", "pc_confirmed_frame_min_n4"]]
 PC_DISC = [PC("pc_disconnect_player_contract"), PC("pc_disconnected_event")]
 PC_EVENTS = [PC("pc_event_forwarding_and_cap"), PC("pc_wait_recommendation_respects_cap"), PC("pc_running_iff_all_synchronized")]
 PC_WAIT = [PC("pc_wait_recommendation_gate")]
